@@ -148,6 +148,15 @@ func addFacets(req *bleve.SearchRequest, v int) {
 		pf := bleve.NewFacetRequest("t", 10)
 		pf.SetPrefixFilter("p")
 		req.AddFacet("tf-prefix", pf)
+		// two ranges with identical bounds under different names (legal: only names must differ)
+		nt := bleve.NewFacetRequest("n", 10)
+		nt.AddNumericRange("first", fp(0), fp(2.5))
+		nt.AddNumericRange("second", fp(0), fp(2.5))
+		req.AddFacet("nf-twins", nt)
+		dt := bleve.NewFacetRequest("d", 10)
+		dt.AddDateTimeRange("first", t0, time.Time{})
+		dt.AddDateTimeRange("second", t0, time.Time{})
+		req.AddFacet("df-twins", dt)
 	}
 }
 
@@ -449,6 +458,9 @@ func compare(exp, got *rendered, sizeZero bool, mode string, add func(what, deta
 	for name, ef := range exp.facets {
 		gf, ok := got.facets[name]
 		kind := map[byte]string{'k': "terms", 't': "terms", 'n': "numeric", 'd': "date"}[name[0]]
+		if strings.HasSuffix(name, "-twins") {
+			kind += "(two ranges with identical bounds)"
+		}
 		if !ok {
 			add("facet-"+kind+":absent", fmt.Sprintf("facet %s absent from the alias result; single index: %s %s", name, ef.tmo, ef.ordered))
 			continue
@@ -504,7 +516,7 @@ func Run(r *mc.Run) {
 	for _, cfg := range cfgs {
 		cfgNames = append(cfgNames, fmt.Sprintf("%s:%d documents:%d assignments", cfg.name, cfg.n, pow(cfg.n)))
 	}
-	r.Rule(fmt.Sprintf("E2: every assignment of a corpus (ids; keyword k with duplicates/absent; numeric n with duplicates/absent; date d; multi-valued keyword t) to %d shards, empty and skewed shards included (member engines and corpus sizes: %v) × alias shapes {flat, alias(alias(s0,s1),s2), alias(alias(s0),alias(s1,s2)), two-member alias when s2 is empty, alias(alias(s0)) when s0 holds everything} × %d queries × %d score-independent total sorts × every From∈[0,%d] × Size∈[0,%d]∪{11} page × SearchAfter and SearchBefore from every hit of the full listing (keys = the alias's own DecodedSort values, sizes %v), every request with Fields=* and 4–5 facets (terms with size ≥ buckets, prefix-filtered terms, overlapping/open/empty numeric ranges, date ranges); oracle = the same request on one in-memory index of the same engine holding the whole corpus: Total, ordered ids, stored fields, facet buckets and Total/Missing/Other; an outcome is (mode, query, Total, number of hits)",
+	r.Rule(fmt.Sprintf("E2: every assignment of a corpus (ids; keyword k with duplicates/absent; numeric n with duplicates/absent; date d; multi-valued keyword t) to %d shards, empty and skewed shards included (member engines and corpus sizes: %v) × alias shapes {flat, alias(alias(s0,s1),s2), alias(alias(s0),alias(s1,s2)), two-member alias when s2 is empty, alias(alias(s0)) when s0 holds everything} × %d queries × %d score-independent total sorts × every From∈[0,%d] × Size∈[0,%d]∪{11} page × SearchAfter and SearchBefore from every hit of the full listing (keys = the alias's own DecodedSort values, sizes %v), every request with Fields=* and 4–7 facets (terms with size ≥ buckets, prefix-filtered terms, overlapping/open/empty numeric ranges, date ranges, two equally-bounded ranges under different names); oracle = the same request on one in-memory index of the same engine holding the whole corpus: Total, ordered ids, stored fields, facet buckets and Total/Missing/Other; an outcome is (mode, query, Total, number of hits)",
 		nShards, cfgNames, len(c0.qs), len(c0.ss), n+1, n+1, c0.afterSizes))
 	r.Assume("only score-independent total sort orders are in the property; scores, MaxScore and Took are not compared",
 		"facet sizes cover all buckets (property text); range facets are compared as name→count sets, terms facets also in order",
